@@ -1,5 +1,6 @@
 import TxVerif.Props.C11
 import TxVerif.Tie.Skeleton
+import TxVerif.Props.C11History
 open TxVerif
 #print axioms space_eq
 #print axioms alloc_accounting
@@ -8,3 +9,13 @@ open TxVerif
 #print axioms rollback_accounting
 #print axioms extent_bounded
 #print axioms transfer_accounting
+#print axioms op_keeps_invariant
+#print axioms live_count
+#print axioms ops_keep_invariant
+#print axioms commit_accounting
+#print axioms commit_accounting_min
+#print axioms rollback_accounting_ledger
+#print axioms quiet_allocWF
+#print axioms tx_keeps_quiet
+#print axioms history_accounted
+#print axioms history_space_eq
